@@ -120,13 +120,44 @@ class Ctx:
         log("[build] %s in %.1fs" % (cmd, time.time() - t))
         return out
 
-    def harness(self, binary, args, timeout=900, env=None, ok_codes=(0,)):
+    def harness(self, binary, args, timeout=900, env=None, ok_codes=(0,), traces=()):
+        """Run the Go harness.  If the process dies with a Go runtime fatal error / unrecovered panic
+        raised inside neptune's code (first non-runtime frame of the crashing goroutine is in
+        github.com/pinealctx/neptune), that is observable behaviour of the code under test: a
+        `crash` event is appended to the listed trace files (which the harness flushes per event)
+        and the trace specs reject it.  Any other failure is a machinery error."""
         t = time.time()
-        rc, out = self.run([binary] + [str(a) for a in args], cwd=self.build,
-                           env=self.env(env), timeout=timeout, ok_codes=ok_codes,
-                           what="harness " + os.path.basename(binary))
-        log("[exec] %s %s in %.1fs" % (os.path.basename(binary), " ".join(map(str, args)),
-                                       time.time() - t))
+        cmd = [binary] + [str(a) for a in args]
+        try:
+            p = subprocess.run(cmd, cwd=self.build, env=self.env(env), timeout=timeout,
+                               stdout=subprocess.PIPE, stderr=subprocess.STDOUT)
+        except subprocess.TimeoutExpired:
+            raise MachineryError("timeout after %ss: harness %s" % (timeout, os.path.basename(binary)))
+        out = p.stdout.decode("utf-8", "replace")
+        log("[exec] %s %s in %.1fs (rc=%d)" % (os.path.basename(binary), " ".join(map(str, args)),
+                                              time.time() - t, p.returncode))
+        if p.returncode in ok_codes:
+            return out
+        msg = neptune_crash(out)
+        if msg is None or "HARNESS-ERROR" in out or not traces:
+            raise MachineryError("harness %s exited %d\n%s" % (os.path.basename(binary), p.returncode,
+                                                               out[-6000:]))
+        log("[exec] harness process died inside neptune: %s" % msg)
+        appended = False
+        for tf in traces:
+            if os.path.exists(tf) and os.path.getsize(tf) > 0:
+                data = open(tf, "rb").read()
+                # drop a torn last line
+                if not data.endswith(b"\n"):
+                    data = data[:data.rfind(b"\n") + 1]
+                with open(tf, "wb") as f:
+                    f.write(data)
+                    if not appended:
+                        f.write((json.dumps({"ev": "crash", "msg": msg[:300]}) + "\n").encode())
+                        appended = True
+        if not appended:
+            raise MachineryError("harness crashed inside neptune before any event was recorded: " + msg)
+        self.crash = msg
         return out
 
     # ------------------------------------------------------------------ TLC
@@ -146,13 +177,15 @@ class Ctx:
         self.nrun += 1
         meta = self.path("tlc-%d" % self.nrun)
         cmd = ["java", "-XX:+UseParallelGC", "-Xmx" + heap, "-Xss64m", "-cp", TLA_JAR, "tlc2.TLC",
-               "-metadir", meta, "-config", cfg] + args + [module + ".tla"]
+               "-noGenerateSpecTE", "-metadir", meta, "-config", cfg] + args + [module + ".tla"]
         try:
             p = subprocess.run(cmd, cwd=d, env=self.env(env, java_opts), timeout=timeout,
                                stdout=subprocess.PIPE, stderr=subprocess.STDOUT)
         except subprocess.TimeoutExpired:
             raise MachineryError("TLC timeout after %ss on %s/%s" % (timeout, module, cfg))
         out = p.stdout.decode("utf-8", "replace")
+        out = "\n".join(ln for ln in out.split("\n")
+                        if not ln.startswith(("Parsing file", "Semantic processing", "Linting of")))
         shutil.rmtree(meta, ignore_errors=True)
         return p.returncode, out
 
@@ -257,10 +290,11 @@ class Ctx:
         return mark, total, gen, dist, None
 
     # ------------------------------------------------------------------ traces
-    @staticmethod
-    def load_traces(path, sep="reset"):
+    def load_traces(self, path, sep="reset"):
         """Split an ndjson file into traces; each starts with a `reset` event."""
         traces, cur = [], None
+        if not os.path.exists(path) and getattr(self, "crash", None):
+            return []                  # the harness died before it got to this file
         with open(path) as f:
             for line in f:
                 line = line.strip()
@@ -395,6 +429,28 @@ class Ctx:
             (self.pid, self.tier, self.seed, self.traces_validated, self.events_validated,
              len(self.violations), wall))
         return 1 if self.violations else 0
+
+
+def neptune_crash(out):
+    """If `out` is the dump of a Go process that died in neptune's code, return a one-line reason."""
+    m = re.search(r"^(fatal error: .*|panic: .*)$", out, re.M)
+    if not m:
+        return None
+    rest = out[m.end():]
+    g = re.search(r"^goroutine \d+ \[[^\]]*\]:\n", rest, re.M)
+    if not g:
+        return None
+    for line in rest[g.end():].split("\n"):
+        if not line.strip():
+            break                      # end of the crashing goroutine's stack
+        if line.startswith(("\t", " ")):
+            continue                   # file:line
+        fn = line.strip()
+        if fn.startswith("github.com/pinealctx/neptune"):
+            return m.group(1) + " in " + fn.split("(")[0]
+        if fn.startswith(("main.", "verif/harness")):
+            return None                # the harness's own fault
+    return None
 
 
 # ---------------------------------------------------------------------- known findings
